@@ -104,6 +104,9 @@ MUTANTS = [
     ('m71', 'C13', 'break', 'skoolkit/loadtracer.py', "        if not data_block.fast_load or registers[F] % 2 == 0:", "        if not data_block.fast_load:", 'opcodes:00'),
     ('m72', 'C14', 'break', 'skoolkit/comment.py', "        if len(values) < 2:\n            # A lone DD/FD prefix (before an opcode it does not affect)\n            return '', None\n", "", None),
     # harmless edits: must not raise an alarm
+    ('m73', 'C09', 'break', 'skoolkit/snapshot.py', "    if page is None:\n        for a in range(addr1, addr2 + 1, step):", "    if page is None:\n        for a in range(addr1, addr2 + 1, min(step, 0x4000)):", None),
+    ('m74', 'C15', 'break', 'skoolkit/pngwriter.py', "            if frame1.alpha < 0:", "            if frame1.alpha <= 0:", None),
+    ('m75', 'C15', 'break', 'skoolkit/skoolmacro.py', "            if any(frame is f for f in frames):\n                frame = copy(frame)\n", "", None),
     ('h01', 'C05', 'harmless', 'skoolkit/simulator.py',
      "            pcn = registers[24] + 1\n            registers[:2] = af[registers[0]][memory[pcn % 65536]]\n            registers[15] = R1[registers[15]] # R\n            registers[25] += 7 # T-states\n            registers[24] = (pcn + 1) % 65536 # PC",
      "            next_pc = registers[24] + 1\n            registers[:2] = af[registers[0]][memory[next_pc % 65536]]\n            registers[25] += 7 # T-states\n            registers[15] = R1[registers[15]] # R\n            registers[24] = (next_pc + 1) % 65536 # PC", 'opcodes:C6,opcodes:E6'),
